@@ -1,11 +1,22 @@
 """C16 - endian-aware binary streams write canonical bytes and read them back (spec/EndianStream.tla)."""
+import json
 import os
 import subprocess
 import threading
 import vlib
 
+import copy
+import time
+
+# lanes kept in helper modules of their own (not property ids: they only run through this check): checks/c16_sock.py = Socket
+# with partial delivery (EndianSocket.tla), checks/c16_text.py = TextFile's typed text streaming (TextStream.tla); each has
+# lane(ctx, lib), META and replay(path)
+import c16_sock
+import c16_text
+PARTS = [c16_sock, c16_text]
+
 META = {
-    "engine": "EndianStream.tla",
+    "engine": "EndianStream.tla, EndianBuffer.tla, EndianFile.tla, Trace_EndianStream.tla, Trace_EndianBuffer.tla, Trace_EndianFile.tla",
     "technique": "TLC exhaustive enumeration of EndianStream.tla write histories (every scalar type, arrays of every element "
                  "type, strings, byte-order switches) with the read-back/length/append-only properties checked on the "
                  "specification; every transition replayed on StreamBuffer+StreamBufferReader, File and Socket "
@@ -13,7 +24,17 @@ META = {
                  "(SpecPool) over long-lived objects of the caller (scalar variable, Array<T>, String per element type) written "
                  "repeatedly between order switches and assignments, with the objects compared with the specification's "
                  "unchanged pool; recorded random executions (up to 64 values, arrays to length 100, arbitrary bit patterns, "
-                 "up to 6 long-lived objects written repeatedly) validated by TLC against the same actions",
+                 "up to 6 long-lived objects written repeatedly) validated by TLC against the same actions. "
+                 "Growth (sibling modules that EXTEND EndianStream and reuse its wire format): EndianBuffer.tla = StreamBuffer and "
+                 "StreamBufferReader as objects (constructors with their documented default order, setEndian on both sides, "
+                 "write(ptr,n), << ByteArray, length, *buffer, clear, assignment of an Array<byte>, readers over a sub-range by "
+                 "both constructors, >> / read<T>, read(n), read(), skip, length / operator bool / ptr / end, a ghost capacity "
+                 "that classifies growth); EndianFile.tla = one File object as a positioned byte store (READ/WRITE/APPEND/RW, "
+                 "seek/position/end/flush/error, typed << and >> at the position in either byte order, short reads at the end, the "
+                 "stream operators in the wrong mode, the length-prefixed String convention of operator>>(String&), and other "
+                 "File objects on the same path: content/size/firstBytes/put and a second reader with its own position and byte "
+                 "order).  Both are enumerated by TLC (one case per transition, replayed by harness/c16_obj_replay) and validate "
+                 "recorded random executions (harness/c16_obj_record, Trace_EndianBuffer / Trace_EndianFile).%s",
     "design_ref": "DESIGN.md section 6, C16",
     "level_text": "TLC enumerates every history of set-order / write-scalar / write-array / write-string calls up to the "
                   "configured bound on EndianStream.tla, checks on the specification that the stream holds sizeof(T) bytes "
@@ -23,27 +44,126 @@ META = {
                   "contributes the bytes of its present value); "
                   "each transition is replayed on the three real stream classes with the bytes (buffer, file via POSIX, "
                   "wire via MSG_PEEK) and the read-back values compared; recorded random executions are accepted by TLC "
-                  "only if every observed byte and every value read equals what the specification computes.",
-    "level_note": "Bounded (constants in spec/MC_EndianStream_*.cfg); larger sequences/arrays/bit patterns only through the "
+                  "only if every observed byte and every value read equals what the specification computes. "
+                  "EndianBuffer.tla: the buffer's content is the concatenation of what was written since it was last cleared / "
+                  "assigned (ContentOK); what a reader has delivered (values re-encoded in the order they were read with, raw "
+                  "bytes, skipped bytes) is exactly the consumed prefix of its window (ReaderFaithful); exhaustion is reported "
+                  "exactly when the window is used up (ExhaustionReported); reader and buffer are independent, the position only "
+                  "moves forward, a change of order changes nothing that exists. EndianFile.tla: a typed write changes exactly "
+                  "sizeof(T) / length x sizeof(T) bytes at the position (LocalWrite) and reading them there in the same order "
+                  "returns the value (ReadBackAtPos); reads never change the file; a short typed read is flagged by end() "
+                  "(ShortReadFlagged); a file opened for READ is never changed (ReadModeProtects); h << int(n) << s and "
+                  "h >> String are inverse (LenStringInverse).%s",
+    "level_note": "Bounded (constants in spec/MC_EndianStream_*.cfg, MC_EndianBuffer_*.cfg, MC_EndianFile_*.cfg); larger "
+                  "sequences/arrays/bit patterns/contents only through the "
                   "recorded random executions. Values are opaque bit patterns (no floating-point reasoning is needed or "
                   "done). Native = LITTLE is asserted by the harnesses (the big-endian-host branch of the code is not "
-                  "executed). Strings are read back as raw bytes (read(n)/readString(n)); the length-prefixed "
-                  "File/Socket operator>>(String&) is not the inverse of operator<<(String) by design and is not used. "
-                  "Trusted: TLC, clang ASan/LSan, the harness' memcpy-based projection of values to bit patterns.",
+                  "executed). Strings are read back as raw bytes (read(n)/readString(n)) in EndianStream; the length-prefixed "
+                  "File operator>>(String&) is modelled in EndianFile on well-formed input only (it is undocumented; on a "
+                  "length that is negative or larger than what follows the code resizes the String to that length all the same). "
+                  "Reading beyond a StreamBufferReader's window is excluded by the documentation and never generated. The value "
+                  "a File/Socket operator>> leaves in x when fewer than sizeof(T) bytes arrive is unspecified by the documentation "
+                  "(the code byte-swaps the partly filled variable) and is left unconstrained: end() / error() must tell. "
+                  "The array's growth policy is a ghost (not observable through the API): the check only makes sure the "
+                  "enumerated and recorded histories cross its classes. "
+                  "Trusted: TLC, clang ASan/LSan, the harness' memcpy-based projection of values to bit patterns.%s",
 }
+for _k, _i in (("engine", None), ("technique", 0), ("level_text", 1), ("level_note", 2)):
+    if _i is None:
+        META[_k] = ", ".join([META[_k]] + [m.META["engine"] for m in PARTS])
+    else:
+        META[_k] = META[_k] % "".join(" " + m.META[_k] for m in PARTS)
+
+
+# at most this many TLC model-checking JVMs at a time (the lanes overlap TLC with replaying / recording, not TLC with TLC x 6:
+# the machine is shared and the kernel kills JVMs when memory runs out)
+_SLOTS = threading.BoundedSemaphore(4)
+
+
+def _model(c, *a, **kw):
+    with _SLOTS:
+        try:
+            return vlib.Ctx.model(c, *a, **kw)
+        except vlib.HarnessError as e:
+            # a JVM killed by the kernel (exit -9: the machine ran out of memory, other checks run next to this one) says
+            # nothing about the model: once more, a little later
+            if "TLC exit -9" not in str(e):
+                raise
+            vlib.log("C16: %s - TLC was killed (out of memory on the shared machine), running it again" % (a[1] if len(a) > 1 else a[0]))
+            time.sleep(45)
+            return vlib.Ctx.model(c, *a, **kw)
+
+
+def _sub(ctx, name):
+    """A private context for a lane that runs in its own thread (counters are merged afterwards)."""
+    s = copy.copy(ctx)
+    s.model = lambda *a, **kw: _model(s, *a, **kw)
+    s.states = s.transitions = s.traces = s.evaluations = s.distinct = 0
+    s.samples, s.assumptions, s.engines, s.violations = [], [], [], []
+    s.known_hits, s.extra = {}, {}
+    s._rec_exec = 0
+    s.tmp = os.path.join(ctx.tmp, name)
+    os.makedirs(s.tmp, exist_ok=True)
+    return s
+
+
+def _merge(ctx, s):
+    ctx.states += s.states
+    ctx.transitions += s.transitions
+    ctx.traces += s.traces
+    ctx.evaluations += s.evaluations
+    ctx.distinct += s.distinct
+    ctx.engines += s.engines
+    ctx.violations += s.violations
+    ctx.assumptions += s.assumptions
+    ctx.add_samples(s.samples)
+    ctx.extra.update(s.extra)
+    for hz, n in s.known_hits.items():
+        ctx.known_hit(hz, n)
 
 
 def run(ctx):
     lib = vlib.build_lib("asan")
+    ctx.exhaustive = True
+    ctx.rule = ("one case per transition of the state graphs of EndianStream (Spec and SpecPool: history of stream calls + expected "
+                "bytes + the caller's objects as the specification leaves them; each run on StreamBuffer, File and Socket), "
+                "EndianBuffer, EndianFile, EndianSocket and TextStream (history of calls with the result each call must return + "
+                "expected bytes of the buffer / the path / left on the wire); non-trivial = history with >= 2 calls; "
+                "distinct = distinct case lines (hash)")
+    # independent lanes, each in its own thread with a private sub-context: the property itself (core) and the API around it
+    # (growth): StreamBuffer / StreamBufferReader as objects (buf), File as a positioned typed store (file), Socket with partial
+    # delivery (sock), TextFile's typed text streaming (text).  Each lane overlaps its own TLC runs with replaying / recording.
+    lanes = [("core", lane_core), ("buf", lane_buf), ("file", lane_file), ("sock", c16_sock.lane), ("text", c16_text.lane)]
+    only = [x for x in os.environ.get("VERIF_C16_LANES", "").split(",") if x]      # (development: run some lanes only)
+    if only:
+        lanes = [(n, f) for n, f in lanes if n in only]
+    global _SLOTS
+    _SLOTS = threading.BoundedSemaphore(ctx.pick(4, 3))
+    subs = [_sub(ctx, n) for n, _ in lanes]
+    errors = []
+
+    def guarded(f, c):
+        try:
+            f(c, lib)
+        except BaseException as e:      # (the other lanes finish: their violations are still reported)
+            errors.append(e)
+    threads = [threading.Thread(target=guarded, args=(f, c)) for (_, f), c in zip(lanes, subs)]
+    for t in threads:
+        t.start()
+    for t in threads:
+        t.join()
+    for c in subs:
+        _merge(ctx, c)
+    if errors:
+        raise errors[0]
+
+
+def lane_core(ctx, lib):
+    """EndianStream.tla: the wire format on the three sinks (R over Spec and SpecPool, V)."""
     rep = vlib.build_harness(lib, "c16_replay", ["c16_replay.cpp"])
     cfg = "MC_EndianStream_quick" if ctx.quick else "MC_EndianStream_thorough"
     cases = os.path.join(ctx.tmp, "c16.cases")
-    ctx.model("EndianStream", cfg, emit_to=cases, timeout=ctx.pick(600, 3000), xmx="8g")
-    ctx.exhaustive = True
-    ctx.rule = ("one case per transition of the EndianStream state graph (history of stream calls + expected bytes + the "
-                "caller's objects as the specification leaves them), for Spec (temporaries) and SpecPool (long-lived objects "
-                "written repeatedly), each run on StreamBuffer, File and Socket; non-trivial = history with >= 2 calls; "
-                "distinct = distinct case lines (hash)")
+    ctx.model("EndianStream", cfg, emit_to=cases, timeout=ctx.pick(600, 3000), xmx="8g", workers=8)
     # histories over the caller's long-lived objects (SpecPool): the same scalar variable / Array<T> / String written
     # repeatedly, between byte-order switches and assignments by the caller; the objects are inputs and must stay as they are.
     # (TLC enumerates them while the first case file is being replayed.)
@@ -59,13 +179,13 @@ def run(ctx):
     th = threading.Thread(target=pool_model)
     th.start()
     try:
-        ctx.replay(rep, cases, label="R/EndianStream", timeout=ctx.pick(900, 5400), env={"VERIF_TMP": ctx.tmp})
+        ctx.replay(rep, cases, label="R/EndianStream", timeout=ctx.pick(900, 5400), env={"VERIF_TMP": ctx.tmp}, jobs=12)
     finally:
         th.join()
     os.unlink(cases)
     if "err" in box:
         raise box["err"]
-    ctx.replay(rep, pcases, label="R/EndianStreamPool", timeout=ctx.pick(900, 5400), env={"VERIF_TMP": ctx.tmp})
+    ctx.replay(rep, pcases, label="R/EndianStreamPool", timeout=ctx.pick(900, 5400), env={"VERIF_TMP": ctx.tmp}, jobs=12)
     os.unlink(pcases)
     rec = vlib.build_harness(lib, "c16_record", ["c16_record.cpp"])
     files = ctx.record(rec, ctx.pick(12, 48), ctx.pick(5000, 40000), "V/EndianStream", env={"VERIF_TMP": ctx.tmp})
@@ -82,10 +202,143 @@ def run(ctx):
     ]
 
 
+OBJ = (("EndianBuffer", "0", "StreamBuffer / StreamBufferReader objects"), ("EndianFile", "1", "File as a positioned typed store"))
+
+
+def lane_buf(ctx, lib):
+    """EndianBuffer.tla: StreamBuffer / StreamBufferReader as objects (R: one case per transition, V: recorded runs)."""
+    lane_obj(ctx, lib, OBJ[:1])
+
+
+def lane_file(ctx, lib):
+    """EndianFile.tla: File as a positioned byte store with the typed operators (R: one case per transition, V: recorded runs)."""
+    lane_obj(ctx, lib, OBJ[1:])
+    ctx.assumptions += [
+        "a typed File read that finds fewer than sizeof(T) bytes, and a bool read from a byte other than 0/1, have no specified "
+        "value (the documentation is silent): only the position, end() and memory safety are checked for them",
+        "File usage discipline: reads and writes of an RW file alternate with a seek()/flush() (C standard); other objects look "
+        "at the path only after flush()/seek()/close(); position() after open(APPEND) is not asked before the first write or "
+        "seek; operator>>(String&) only on well-formed input (int32 length in the order in force, followed by that many bytes)",
+    ]
+
+
+def lane_obj(ctx, lib, OBJ):
+    rep = vlib.build_harness(lib, "c16_obj_replay", ["c16_obj_replay.cpp"])
+    rec = vlib.build_harness(lib, "c16_obj_record", ["c16_obj_record.cpp"])
+    tier = "quick" if ctx.quick else "thorough"
+    env = {"VERIF_TMP": ctx.tmp}
+    for mod, mode, what in OBJ:
+        cases = os.path.join(ctx.tmp, "c16%s.cases" % mod)
+        ctx.model("MC_" + mod, "MC_%s_%s" % (mod, tier), emit_to=cases, timeout=ctx.pick(600, 3000), xmx="4g", workers=ctx.pick(4, 6))
+        ops = _ops(cases)
+        need = NEED[mod]
+        missing = sorted(k for k in need if not ops.get(k))
+        if missing:
+            raise vlib.HarnessError("MC_%s_%s: no case ends with the call(s) %s" % (mod, tier, ", ".join(missing)))
+        ctx.extra["%s: cases by last call" % mod] = dict(sorted(ops.items()))
+        ctx.replay(rep, cases, label="R/" + mod, timeout=ctx.pick(900, 5400), env=env, jobs=ctx.pick(6, 8))
+        os.unlink(cases)
+    for mod, mode, what in OBJ:
+        files = ctx.record(rec, ctx.pick(6, 24), ctx.pick(2500, 12000), "V/" + mod, extra_args=("--mode", mode), env=env)
+        ctx.validate_traces("Trace_" + mod, "Trace_" + mod, files, label="V/" + mod, timeout=ctx.pick(600, 3000))
+        seen = _events(files)
+        ctx.extra["%s: recorded events by call" % mod] = dict(sorted(seen.items()))
+        if ctx.violations:      # (a recorder that died leaves fewer executions: the finding is reported, not the thin coverage)
+            continue
+        missing = sorted(k for k in NEED[mod] if not seen.get(k))
+        if missing:
+            raise vlib.HarnessError("V/%s: the recorded executions never made the call(s) %s" % (mod, ", ".join(missing)))
+        if mod == "EndianBuffer":
+            # ghost coverage of the array's growth: buffers that were seen to move, and buffers beyond 2 KiB (growth by realloc)
+            ctx.extra["EndianBuffer: writes after which the buffer's storage had moved (recorded)"] = seen.get("#mv", 0)
+            ctx.extra["EndianBuffer: largest recorded buffer (bytes)"] = seen.get("#maxlen", 0)
+            if not seen.get("#mv") or seen.get("#maxlen", 0) <= 2048:
+                raise vlib.HarnessError("V/EndianBuffer: the recorded executions did not make the buffer grow (moves %s, largest %s bytes)"
+                                        % (seen.get("#mv"), seen.get("#maxlen")))
+    ctx.assumptions += [
+        "%s: exhaustive within the constants of spec/MC_%s_%s.cfg; beyond them only the recorded random executions apply" % (m, m, tier)
+        for m, _, _ in OBJ]
+    if OBJ[0][0] == "EndianBuffer":
+        ctx.assumptions += [
+            "StreamBufferReader is used within its documented precondition (no read or skip beyond the window); what is checked at "
+            "the end of the window is that exhaustion is reported (length() = 0, operator bool false, ptr() = end())"]
+
+
+# calls every configuration / every batch of recorded executions must contain (vacuity guard on the emitted cases / events)
+NEED = {
+    "EndianBuffer": ("set", "w", "wa", "ws", "wr", "len", "content", "clear", "assign", "ropen", "rset", "r", "rb", "rall", "skip", "rq"),
+    "EndianFile": ("open", "close", "set", "w", "wa", "ws", "wr", "wls", "wdenied", "r", "rr", "rls", "rdenied", "seek", "pos", "end",
+                   "err", "flush", "ocontent", "osize", "ofirst", "oput", "oread"),
+}
+
+
+def _ops(path):
+    """number of cases per last call of the history"""
+    n = {}
+    with open(path) as fh:
+        for ln in fh:
+            try:
+                op = json.loads(ln)["hist"][-1]["op"]
+            except (ValueError, KeyError, IndexError):
+                continue
+            n[op] = n.get(op, 0) + 1
+    return n
+
+
+def _events(files):
+    n = {}
+    size = 0
+    for f in files:
+        with open(f) as fh:
+            for ln in fh:
+                try:
+                    e = json.loads(ln)
+                except ValueError:
+                    continue
+                op = e.get("op")
+                n[op] = n.get(op, 0) + 1
+                if e.get("mv"):
+                    n["#mv"] = n.get("#mv", 0) + 1
+                if op in ("reset", "clear"):
+                    size = 0
+                elif op == "assign":
+                    size = len(e.get("d", []))
+                elif "g" in e:
+                    size += len(e["g"])
+                    n["#maxlen"] = max(n.get("#maxlen", 0), size)
+    return n
+
+
+def _first_case(path):
+    try:
+        with open(path) as fh:
+            return json.loads(fh.readline())
+    except Exception:
+        return {}
+
+
 def replay(path):
+    path = os.path.abspath(path)      # (TLC runs in spec/: a relative TRACE would read as an empty trace)
     lib = vlib.build_lib("asan")
-    if os.path.basename(path).startswith("rec-") or path.endswith(".ndjson"):
+    base = os.path.basename(path)
+    if base.startswith("rec-") or path.endswith(".ndjson"):
+        # V: a rejected trace (its name begins with the label) or the descriptor of a recorder that died
+        info = {} if path.endswith(".ndjson") else json.load(open(path))
+        recorder = info.get("recorder", "")
+        if "EndianSocket" in base or recorder == "c16_sock_record":
+            return c16_sock.replay(path)
+        if "TextStream" in base or recorder == "c16_text_record":
+            return c16_text.replay(path)
+        for mod, mode, what in OBJ:
+            if mod in base or (recorder == "c16_obj_record" and list(info.get("args", []))[-1:] == [mode]):
+                return vlib.replay_recorded(path, lib, "c16_obj_record", ["c16_obj_record.cpp"], "Trace_" + mod, "Trace_" + mod)
         return vlib.replay_recorded(path, lib, "c16_record", ["c16_record.cpp"], "Trace_EndianStream", "Trace_EndianStream")
-    rep = vlib.build_harness(lib, "c16_replay", ["c16_replay.cpp"])
+    first = _first_case(path)
+    if "avail" in first:
+        return c16_sock.replay(path)
+    if "text" in first:
+        return c16_text.replay(path)
+    hname = "c16_obj_replay" if first.get("k") in ("buf", "file") else "c16_replay"
+    rep = vlib.build_harness(lib, hname, [hname + ".cpp"])
     r = subprocess.run([rep, "--single", path], env=vlib.run_env())
     return 1 if r.returncode == 1 else (0 if r.returncode == 0 else 2)
